@@ -135,6 +135,14 @@ func c07Generate(r *rand.Rand) *c07Config {
 		}
 		perm = q
 	}
+	// the file's own package may itself live in a vendor directory, and then the un-vendored form of
+	// its path is some other package (here: one that the file imports or refers to)
+	switch r.Intn(8) {
+	case 0:
+		cfg.local = "example.com/self/vendor/" + c07Universe[perm[0]].path
+	case 1:
+		cfg.local = "vendor/" + c07Universe[perm[0]].path
+	}
 	nimp := 1 + r.Intn(5)
 	var specs []c07Spec
 	usedAlias := map[string]bool{}
